@@ -323,7 +323,11 @@ PROPS = {
             # a subscriber whose pipe is broken is removed by the publish that notices it; the others are served
             ('pubsub', r'^(PubSocket|XPubSocket)::send$', {'post'}, r'fatal_for_publish|contains_key'),
             # a write that fails removes that peer from the table and the rotation (and only that peer)
-            ('routing', r'^GenericSocketBackend::send_round_robin$', {'post', 'inv-entry', 'inv-end'}, None),
+            # (the loop measure is in scope too: a rotation that keeps the identities of forgotten peers makes a send with
+            # no live peer left spin for ever - "never spins or hangs"; seeded change C16-J)
+            ('routing', r'^GenericSocketBackend::send_round_robin$', {'post', 'inv-entry', 'inv-end', 'decreases'}, None),
+            # REQ has its own copy of that loop: identities of forgotten peers are dropped from the rotation, not re-queued
+            ('reqrep', r'^ReqSocket::send$', {'post', 'inv-entry', 'inv-end', 'decreases'}, None),
             # ROUTER: a send addressed to an identity that is not in the table fails and writes nothing
             ('routing', r'^RouterSocket::send$', {'post'}, None),
             # corollary: a forgotten peer is never the one a later round-robin send chooses
